@@ -31,14 +31,30 @@ LEVEL_TEXT = ("Coq theorems, for every evaluation function, candidate set, subse
               "optimisers the theorem part is the operators (and that the optimiser is configured with them); every run is additionally "
               "validated by a result monitor, in Python and in Coq (feasibility, bounds, dtype, reported values == fresh evaluation, mutual "
               "non-domination, problem unchanged), including problems without any feasible decision (the least-violating member is returned), "
-              "subsets equal to the whole candidate set and problems constructed with elementwise=False")
+              "subsets equal to the whole candidate set and problems constructed with elementwise=False. "
+              "Phase 2: the expressions and statements on which these theorems turn are REGENERATED FROM THE SOURCE on every run "
+              "(harness/translate/c06_kernel.py -> Gen/C06_Kernel.v, 74 definitions): the climbers' acceptance tests, score/violation formulas, "
+              "accepting branches (which of best_i/j/obj/ineqcv/eqcv/score/cv is assigned from what), loop head, break test, commit, element exchange "
+              "and exchange pool; the sorting key, slice bounds and singleton evaluations; dominates; tiled_choice's tiles; the crossover/mutation masks, "
+              "exchange count and exchange; MutatorA/B's unused-candidate set, guard, step count, tiled-draw arguments, trial-row assignment and "
+              "front argmin; the integer rounding; and the table (class, Solution keyword, provenance) of all sixteen optimiser classes. "
+              "Proofs/C06_Kernel.v links each to the hand model (by conversion) and proves that the loop re-assembled from the generated statements, "
+              "keeping the state the source keeps (stored best_score/best_cv), refines the model's climber and reports the score/violation of the "
+              "returned decision; theorems C06_kernel_* restate feasibility, optimality, the climber result clause, dominates being a strict "
+              "partial order, the tiling of tiled_choice and the Solution-construction table about the generated definitions; scale covariance "
+              "of both climbers and of the sorting optimiser (positive rescaling of violations / scores changes no trajectory) is proved")
 LEVEL_NOTE = ("trusted: Coq kernel + vm_compute; pymoo's evolutionary loop, survival and result extraction (validated at run time only); "
               "numpy.random.choice(replace=False) returning distinct positions; numpy fancy-index assignment semantics (last write wins); "
               "numpy float arithmetic on small integers being exact; numpy argsort tie order is not relied upon (keys are compared); "
               "pymoo NonDominatedSorting returning the first front in ascending position order and numpy.argmin returning the first minimum "
               "(both mirrored by the model and compared on every op_hcAB case); the "
               "other memetic mutations (steepest/stochastic descent) are covered by the run-time monitor only; theorems are about the "
-              "Gallina model, the tie to the code is differential on generated inputs")
+              "Gallina model, the tie to the code is differential on generated inputs plus, for the kernel expressions, the fail-closed ast translator "
+              "c06_kernel.py (trusted: it fixes the statement shapes it accepts; anything else is reported as a broken correspondence); numpy's "
+              "boolean-mask selection / fancy-index assignment / argsort semantics are restated by the translator's templates (compress, scatter, "
+              "assign_at, set_nth, isort); StochasticHillClimberMutation and MultiObjectiveSteepestDescentHillClimberMutation are driven directly "
+              "(feasibility, aliasing, truthful stored objectives) but not modelled; MutatorF and two hill-climb classes used by no optimiser are "
+              "listed in SKIPPED / restricted (see COVERED)")
 TECHNIQUE = "Coq proof over an executable model; in-Coq vm_compute correspondence (call traces, scripted draws); run-time result monitor"
 RULE = ("case = (kind, problem, draws): kinds sort|sd|ssd (integer table problems: linear + pair-interaction objective, clipped/raw "
         "inequality and equality constraints, candidate sets of 1..10 (a few 11..16) elements incl. k=1, k=n, tied keys; sd with scripted "
@@ -47,11 +63,20 @@ RULE = ("case = (kind, problem, draws): kinds sort|sd|ssd (integer table problem
         "so that allele draws wrap around), ga (all 13 pymoo-based classes, ngen 1..6, pop 1..12, with/without "
         "constraints, certainly infeasible problems for every class, k=n incl. every individual hill-climbed, elementwise=False); generated from one PRNG; non-trivial = climber makes at least one exchange / "
         "crossover exchanges at least one element / sorting or GA has k<n (or a non-degenerate box) / rounding has a fractional input / "
-        "hill-climb step changes the chromosome; distinct by SHA-256 of the case")
+        "hill-climb step changes the chromosome; distinct by SHA-256 of the case. Phase 2 additions: session (one problem object and one set of "
+        "optimiser objects reused for 2-4 calls, the problem changed in between through its setters ndecn / decn_space / obj_wt / ineqcv_wt or by "
+        "overwriting its data arrays in place; every call must equal a fresh run on the state at that call; optionally a reused SubsetGeneticAlgorithm), "
+        "objective / constraint weights scaled by 2^-40..2^20 (model run in units of the scale; exact), candidate sets of 130..300 members with labels "
+        "beyond int8/uint8, op_dom (dominates incl. ties, zero / negative / positive violations, scaled by 2^-40 / 2^20), op_tiled (tiled_choice "
+        "directly, size 0, < a, multiples of a), op_hc2 (hillclimb of the four other memetic mutation classes called directly), GA constructor "
+        "parameters rng and nhcstep, aliasing (every returned solution array is overwritten in place and the problem re-compared; results of "
+        "sampling / crossover / mutation / MutatorA/B.hillclimb must not share memory with their inputs); the public entry points of the 17 anchored modules are enumerated by introspection at "
+        "run time and must all be classified (COVERED with their parameter lists / SKIPPED with a reason)")
 TRUSTED = ["pymoo 0.6.2 GA/NSGA2/NSGA3 loops and Result extraction (not modelled; every run is checked by the result monitor)",
            "numpy.random.choice(..., replace=False) yields distinct positions (oracle contract assumed by sampling_feasible)",
            "numpy.random functions are replaced inside run_impl by a recording script for the operator cases; pymoo's default_rng(None) is "
-           "redirected to a seeded generator so that runs are replayable"]
+           "redirected to a seeded generator so that runs are replayable",
+           "harness/translate/c06_kernel.py (ast -> Gallina for the kernel expressions; fail closed on any statement shape it does not describe)"]
 ASSUMPTIONS = ["candidate set duplicate-free, ndecn <= len(decn_space) (SubsetProblem checks the length)",
                "evalfn is a pure function of the decision vector", "table problems are integer valued (exact in binary64)"]
 
@@ -117,9 +142,140 @@ def _parents(rng, cand, k):
     else: b = rng.sample(cand, k)
     return a, b
 
+# ------------------------------------------------------------------------------------------------ entry points (audited at run time, fail closed)
+ANCHOR_MODULES = ["pybrops.opt.algo." + m for m in (
+    "SortingSubsetOptimizationAlgorithm", "SteepestDescentSubsetHillClimber", "SortingSteepestDescentSubsetHillClimber",
+    "SubsetGeneticAlgorithm", "RealGeneticAlgorithm", "IntegerGeneticAlgorithm", "BinaryGeneticAlgorithm", "NSGA2SubsetGeneticAlgorithm",
+    "NSGA2RealGeneticAlgorithm", "NSGA2IntegerGeneticAlgorithm", "NSGA2BinaryGeneticAlgorithm", "NSGA3SubsetGeneticAlgorithm",
+    "NSGA2MemeticSubsetGeneticAlgorithm", "pymoo_addon")] + ["pybrops.opt.prob.Problem", "pybrops.opt.prob.SubsetProblem", "pybrops.opt.soln.Solution"]
+_GA_PARAMS = ["ngen", "pop_size", "rng", "kwargs"]
+# name -> (constructor / function parameters, how it is exercised)
+COVERED = {
+    "SortingSubsetOptimizationAlgorithm": (["kwargs"], "kinds sort, session: call trace + result vs model, brute-force optimum"),
+    "SteepestDescentSubsetHillClimber": (["rng", "kwargs"], "kinds sd, session: scripted or seeded rng, call trace vs model, local optimality"),
+    "SortingSteepestDescentSubsetHillClimber": (["kwargs"], "kinds ssd, session"),
+    "SubsetGeneticAlgorithm": (_GA_PARAMS, "kind ga (+ session): result monitor; rng passed or defaulted"),
+    "RealGeneticAlgorithm": (_GA_PARAMS, "kind ga"), "IntegerGeneticAlgorithm": (_GA_PARAMS, "kind ga"), "BinaryGeneticAlgorithm": (_GA_PARAMS, "kind ga"),
+    "NSGA2SubsetGeneticAlgorithm": (_GA_PARAMS, "kind ga"), "NSGA2RealGeneticAlgorithm": (_GA_PARAMS, "kind ga"),
+    "NSGA2IntegerGeneticAlgorithm": (_GA_PARAMS, "kind ga"), "NSGA2BinaryGeneticAlgorithm": (_GA_PARAMS, "kind ga"),
+    "NSGA3SubsetGeneticAlgorithm": (["ngen", "pop_size", "nrefpts", "rng", "kwargs"], "kind ga (nrefpts given or derived)"),
+    "NSGA2SteepestDescentSubsetGeneticAlgorithm": (["ngen", "pop_size", "phc", "rng", "kwargs"], "kind ga (phc 0 / .5 / 1)"),
+    "NSGA2StochasticDescentSubsetGeneticAlgorithm": (["ngen", "pop_size", "phc", "nhcstep", "rng", "kwargs"], "kind ga (phc, nhcstep incl. > unused candidates)"),
+    "NSGA2MutatorASubsetGeneticAlgorithm": (["ngen", "pop_size", "phc", "nhcstep", "rng", "kwargs"], "kind ga"),
+    "NSGA2MutatorBSubsetGeneticAlgorithm": (["ngen", "pop_size", "phc", "nhcstep", "rng", "kwargs"], "kind ga"),
+    "dominates": (["obj1", "cv1", "obj2", "cv2"], "kind op_dom vs dominates_m"),
+    "tiled_choice": (["a", "size"], "kinds op_tiled (direct) and op_hcAB (request log)"),
+    "SubsetRandomSampling": (["setspace", "replace"], "kind op_sample"),
+    "ReducedExchangeCrossover": (["kwargs"], "kind op_cx"),
+    "ReducedExchangeMutation": (["setspace", "kwargs"], "kind op_mut"),
+    "IntegerSimulatedBinaryCrossover": (["prob_var", "eta", "prob_exch", "prob_bin", "n_offsprings", "kwargs"], "kind op_round (pymoo's parameters are passed through untouched)"),
+    "IntegerPolynomialMutation": (["prob", "eta", "at_least_once", "kwargs"], "kind op_round"),
+    "MutatorA": (["setspace", "phc", "nhcstep", "kwargs"], "kind op_hcAB + ga"),
+    "MutatorB": (["setspace", "phc", "nhcstep", "kwargs"], "kind op_hcAB + ga"),
+    "StochasticHillClimberMutation": (["setspace", "phc", "nhcstep", "kwargs"], "kind op_hc2 (hillclimb called directly, feasibility monitor) + ga"),
+    "MultiObjectiveSteepestDescentHillClimberMutation": (["setspace", "p_hillclimb", "kwargs"], "kind op_hc2 + ga"),
+    "MultiObjectiveStochasticDescentHillClimberMutation": (["setspace", "phc", "nhc", "kwargs"], "kind op_hc2, k < n only, feasibility only (used by no optimiser "
+                                                           "class; for k = n it raises ValueError from np.random.choice(0) - the guard added to its siblings is missing -, it returns an "
+                                                           "empty population when nothing improves and stores a proposal's objectives with the reverted chromosome: reported, unreachable)"),
+    "MultiObjectiveStochasticHillClimberMutation": (["setspace", "p_hillclimb", "kwargs"], "kind op_hc2, k < n only (used by no optimiser class; same missing guard)"),
+    "SubsetProblem": (["ndecn", "decn_space", "decn_space_lower", "decn_space_upper", "nobj", "obj_wt", "nineqcv", "ineqcv_wt", "neqcv", "eqcv_wt", "vtype", "vars",
+                       "elementwise", "elementwise_func", "elementwise_runner", "replace_nan_values_by", "exclude_from_serialization", "callback", "strict", "kwargs"],
+                      "every subset case (constructor) and kind session (setters ndecn / decn_space / obj_wt / ineqcv_wt between calls); elementwise both ways"),
+    "Problem": (["n_var", "n_obj", "n_ieq_constr", "n_eq_constr", "xl", "xu", "vtype", "vars", "elementwise", "elementwise_func", "elementwise_runner", "requires_kwargs",
+                 "replace_nan_values_by", "exclude_from_serialization", "callback", "strict", "kwargs"], "base of every problem; _evaluate through every ga / hill-climb case"),
+    "Solution": (["args", "kwargs"], "base of every returned solution: fields read back by the monitor"),
+}
+SKIPPED = {
+    "MutatorF": "not referenced by any optimiser class; its constructor calls super(StochasticHillClimberMutation, self).__init__ and cannot be instantiated",
+    "check_is_Problem": "type guard (raises TypeError on a wrong type), no optimisation behaviour",
+    "check_is_SubsetProblem": "type guard; runs at the top of every subset minimize",
+    "check_SubsetProblem_is_single_objective": "guard; runs at the top of the single-objective optimisers (every sort/sd/ssd case passes it)",
+    "check_SubsetProblem_is_multi_objective": "guard; runs at the top of the NSGA optimisers",
+    "check_is_Solution": "type guard",
+}
+
+def _audit_entry_points():
+    """every public class / function defined in the anchored modules must be classified, with the parameters recorded here"""
+    import importlib, inspect
+    found = {}
+    for m in ANCHOR_MODULES:
+        mod = importlib.import_module(m)
+        for n, o in vars(mod).items():
+            if n.startswith("_") or getattr(o, "__module__", None) != m: continue
+            if inspect.isclass(o): found[n] = [q for q in inspect.signature(o.__init__).parameters if q != "self"]
+            elif inspect.isfunction(o): found[n] = list(inspect.signature(o).parameters)
+    bad = []
+    for n, ps in found.items():
+        if n in SKIPPED: continue
+        if n not in COVERED: bad.append("unclassified entry point %s(%s)" % (n, ", ".join(ps)))
+        elif COVERED[n][0] != ps: bad.append("%s: parameters %r, recorded %r" % (n, ps, COVERED[n][0]))
+    bad += ["%s is listed but no longer defined" % n for n in list(COVERED) + list(SKIPPED) if n not in found]
+    if bad: raise RuntimeError("C06 entry-point audit: " + "; ".join(bad))
+
+HC2 = ["StochasticHillClimberMutation", "MultiObjectiveSteepestDescentHillClimberMutation", "MultiObjectiveStochasticDescentHillClimberMutation",
+       "MultiObjectiveStochasticHillClimberMutation"]
+
+def _scaled(rng, p, constraints=True):
+    """objective / constraint weights far from 1 (powers of two: the exact regime still applies)"""
+    p["osc"] = rng.choice([0, 0, 0, -40, -20, 10, 20])
+    if constraints: p["csc"] = rng.choice([0, 0, 0, -40, -20, 10, 20])
+    return p
+
+def _session(rng):
+    """one problem object and one set of optimiser objects used for several calls; between calls the problem is changed through
+    its setters (ndecn, decn_space, obj_wt, ineqcv_wt) or its data arrays are overwritten in place"""
+    p = _tprob(rng, n=rng.randint(3, 7), ties=rng.random() < 0.3)
+    nineq = len(p["C"])
+    steps = [p]
+    import copy
+    for _ in range(rng.randint(1, 3)):
+        t = copy.deepcopy(steps[-1]); n = len(t["cand"])
+        what = rng.choice(["k", "cand", "owt", "iwt", "W", "k"])
+        if what == "k": t["k"] = rng.choice([x for x in range(1, n + 1) if x != t["k"]] or [t["k"]])
+        elif what == "cand":
+            pool = list(range(t["M"])); rng.shuffle(pool); t["cand"] = pool[:max(t["k"], rng.randint(1, t["M"]))]
+        elif what == "owt": t["owt"] = [-w for w in t["owt"]]
+        elif what == "iwt" and nineq: t["iwt"] = [w + 1 for w in t["iwt"]]
+        else: t["W"] = [[rng.randint(-9, 9) for _ in row] for row in t["W"]]
+        steps.append(t)
+    return {"kind": "session", "steps": steps, "ix": [rng.sample(range(len(t["cand"])), t["k"]) for t in steps],
+            "ga": rng.random() < 0.3, "seed": rng.randint(0, 10 ** 6)}
+
 def gen_cases(rng, tier):
     q = tier == "quick"
+    _audit_entry_points()
     cases = []
+    # --- sessions, scales, sizes beyond a narrow integer type, direct calls of the helpers
+    for i in range(40 if q else 600):
+        cases.append(_session(rng))
+    for kind in ("sort", "sd", "ssd"):
+        for i in range(40 if q else 600):
+            p = _scaled(rng, _tprob(rng, ties=rng.random() < 0.3))
+            c = {"kind": kind, "prob": p}
+            if kind == "sd": c["ix"] = rng.sample(range(len(p["cand"])), p["k"])
+            cases.append(c)
+        for i in range(1 if q else 6):               # more candidates / larger labels than int8 / uint8 can hold
+            n = rng.choice([130, 200, 260, 300]); p = _tprob(rng, n=n, k=rng.randint(1, 3), pairs=False, nineq=rng.choice([0, 1]), neq=0)
+            c = {"kind": kind, "prob": p}
+            if kind == "sd": c["ix"] = rng.sample(range(n), p["k"])
+            cases.append(c)
+    for i in range(120 if q else 2000):
+        nobj = rng.randint(1, 4); lo, hi = rng.choice([(-2, 2), (-1, 1), (0, 9)])
+        o1 = [rng.randint(lo, hi) for _ in range(nobj)]
+        o2 = list(o1) if rng.random() < 0.25 else [rng.randint(lo, hi) for _ in range(nobj)]
+        if rng.random() < 0.3: o2 = [a + rng.choice([0, 0, 1]) for a in o1]
+        cases.append({"kind": "op_dom", "o1": o1, "o2": o2, "cv1": rng.choice([0, 0, -1, 1, 2]), "cv2": rng.choice([0, 0, -1, 1, 2]), "sc": rng.choice([0, 0, -40, 20])})
+    for i in range(40 if q else 400):
+        a = rng.randint(1, 7)
+        cases.append({"kind": "op_tiled", "a": a, "size": rng.choice([0, 1, a, a - 1, a + 1, 2 * a, rng.randint(0, 3 * a + 2)]), "seed": rng.randint(0, 10 ** 6)})
+    for i in range(60 if q else 600):
+        n = rng.randint(1, 8); k = n if rng.random() < 0.12 else rng.randint(1, max(1, n - 1))
+        p = _tprob(rng, n=n, k=k, nobj=rng.choice([2, 2, 3]), symmetric=True, ties=rng.random() < 0.4, neq=0)
+        p["clip"] = True
+        which = rng.choice(HC2)
+        if k == n and which in HC2[2:]: which = rng.choice(HC2[:2])
+        cases.append({"kind": "op_hc2", "which": which, "prob": p, "x": rng.sample(p["cand"], k),
+                      "nhcstep": rng.choice([None, 1, rng.randint(1, 2 * k + 1)]), "seed": rng.randint(0, 10 ** 6), "elementwise": rng.random() < 0.8})
     # --- exact optimisers
     for i in range(160 if q else 3000):
         ties = rng.random() < 0.35
@@ -203,6 +359,9 @@ def gen_cases(rng, tier):
                 if rng.random() < 0.5: c["pop"] = rng.choice([1, 3, 6, 10])
                 else: c["nrefpts"] = rng.choice([1, 3, 6, 10])
             if memetic and rng.random() < 0.5: c["phc"] = rng.choice([0.0, 0.5, 1.0])
+            if algo in MEMETIC[1:] and rng.random() < 0.5: c["nhcstep"] = rng.choice([1, 2, 2 * k + 1, rng.randint(1, 2 * n)])
+            if rng.random() < 0.4: c["rng"] = True
+            if rng.random() < 0.3: p["osc"] = rng.choice([-20, 10])
             if r == 2 or rng.random() < 0.1: c["elementwise"] = False     # vectorised branch of Problem._evaluate
             if memetic and r == 3:                    # the whole candidate set is selected and every individual is hill-climbed
                 p["k"] = len(p["cand"]); p["cap"] = [3 * p["k"] + 2 for _ in p["cap"]]; c["phc"] = 1.0
@@ -213,6 +372,7 @@ def gen_cases(rng, tier):
             c = {"kind": "ga", "algo": algo, "ngen": rng.choice([1, 2, 3, 6]), "pop": rng.choice([1, 2, 4, 8, 12]),
                  "seed": rng.randint(0, 10 ** 6), "lp": _lprob(rng, typ, nobj, infeasible=(r == 0), nineq=(1 if r == 0 else None))}
             if r == 2 or rng.random() < 0.1: c["elementwise"] = False
+            if rng.random() < 0.4: c["rng"] = True
             cases.append(c)
     return cases
 
@@ -224,13 +384,17 @@ def _tab_eval(p, x):
         v = sum(w[e] for e in x)
         if j == 0 and p["P"]:
             v += sum(p["P"][x[a]][x[b]] for a in range(len(x)) for b in range(a + 1, len(x)))
-        objs.append(p["owt"][j] * v)
+        objs.append(_sc(p, "osc") * p["owt"][j] * v)
     ineq = []
     for c, cap, wt in zip(p["C"], p["cap"], p["iwt"]):
         v = sum(c[e] for e in x) - cap
-        ineq.append(wt * (max(0, v) if p["clip"] else v))
-    eq = [wt * abs(sum(d[e] for e in x) - tg) for d, tg, wt in zip(p["D"], p["tgt"], p["ewt"])]
+        ineq.append(_sc(p, "csc") * wt * (max(0, v) if p["clip"] else v))
+    eq = [_sc(p, "csc") * wt * abs(sum(d[e] for e in x) - tg) for d, tg, wt in zip(p["D"], p["tgt"], p["ewt"])]
     return objs, ineq, eq
+
+def _sc(p, key):
+    """scale of the objective (osc) / constraint (csc) weights: an exact power of two"""
+    return Fraction(2) ** p.get(key, 0)
 
 def _lin_eval(lp, x):
     xs = [Fraction(float(v)) for v in x]
@@ -271,9 +435,9 @@ def _mk_subset_problem(p, elementwise=True):
             return obj, ineq, eq
     M = p["M"]
     return TabSubset(p, ndecn=p["k"], decn_space=numpy.array(p["cand"], dtype=int), decn_space_lower=0, decn_space_upper=M - 1,
-                     nobj=len(p["W"]), obj_wt=numpy.array(p["owt"], dtype=float), nineqcv=len(p["C"]),
-                     ineqcv_wt=numpy.array(p["iwt"], dtype=float), neqcv=len(p["D"]), eqcv_wt=numpy.array(p["ewt"], dtype=float),
-                     elementwise=elementwise)
+                     nobj=len(p["W"]), obj_wt=numpy.array(p["owt"], dtype=float) * float(_sc(p, "osc")), nineqcv=len(p["C"]),
+                     ineqcv_wt=numpy.array(p["iwt"], dtype=float) * float(_sc(p, "csc")), neqcv=len(p["D"]),
+                     eqcv_wt=numpy.array(p["ewt"], dtype=float) * float(_sc(p, "csc")), elementwise=elementwise)
 
 def _mk_lin_problem(lp, elementwise=True):
     from pybrops.opt.prob.RealProblem import RealProblem
@@ -332,6 +496,14 @@ def _solution_out(prob, soln, before, subset):
     out["fresh"] = [[_hx([f[0]])[0], _hx([f[1]])[0], _hx([f[2]])[0]] for f in fresh]
     del prob.calls[ncalls:]
     out["unchanged"] = _snap(prob) == before
+    # aliasing: the reported arrays are the caller's; overwriting them must not reach the problem (nor its decision space)
+    try:
+        for a in (soln.soln_decn, soln.soln_obj, soln.soln_ineqcv, soln.soln_eqcv):
+            a = numpy.asarray(a)
+            if a.size and a.flags.writeable: a[...] = (a + 1) if a.dtype.kind != "b" else ~a
+        out["alias_free"] = _snap(prob) == before
+    except Exception as e:
+        out["alias_free"] = "error: %s" % e
     return out
 
 class _Script:
@@ -408,6 +580,89 @@ def run_impl(case):
             out["rng_log"] = [list(t) for t in rng.log]
             out["rng_left"] = len(rng.q["choice"])
         return out
+    if kind == "session":
+        from rngscript import Scripted
+        from pybrops.opt.algo.SortingSubsetOptimizationAlgorithm import SortingSubsetOptimizationAlgorithm
+        from pybrops.opt.algo.SortingSteepestDescentSubsetHillClimber import SortingSteepestDescentSubsetHillClimber
+        from pybrops.opt.algo.SteepestDescentSubsetHillClimber import SteepestDescentSubsetHillClimber
+        from pybrops.opt.algo.SubsetGeneticAlgorithm import SubsetGeneticAlgorithm
+        steps = case["steps"]
+        prob = _mk_subset_problem(steps[0])
+        rng = Scripted(choices=[list(ix) for ix in case["ix"]])
+        algos = {"sort": SortingSubsetOptimizationAlgorithm(), "ssd": SortingSteepestDescentSubsetHillClimber(), "sd": SteepestDescentSubsetHillClimber(rng=rng)}
+        ga = SubsetGeneticAlgorithm(ngen=2, pop_size=4, rng=numpy.random.default_rng(case["seed"])) if case.get("ga") else None
+        outs = []
+        prev = steps[0]
+        for t, p in enumerate(steps):
+            # reach the next state through the library's own setters / by overwriting the data arrays in place
+            if p["k"] != prev["k"] or p["cand"] != prev["cand"]:
+                if len(p["cand"]) != len(prev["cand"]) or p["cand"] != prev["cand"]: prob.decn_space = numpy.array(p["cand"], dtype=int)
+                prob.ndecn = p["k"]
+                prob.decn_space_lower = 0; prob.decn_space_upper = p["M"] - 1
+            if p["owt"] != prev["owt"]: prob.obj_wt = numpy.array(p["owt"], dtype=float)
+            if p["iwt"] != prev["iwt"]: prob.ineqcv_wt = numpy.array(p["iwt"], dtype=float)
+            if p["W"] != prev["W"]:
+                for w, row in zip(prob.W, p["W"]): w[:] = row
+            prob.spec = p
+            prev = p
+            step_out = {}
+            for kd in ("sort", "ssd", "sd"):
+                del prob.calls[:]
+                before = _snap(prob)
+                misc = {}
+                soln = algos[kd].minimize(prob, miscout=misc)
+                calls = list(prob.calls)
+                o = _solution_out(prob, soln, before, True)
+                o["calls"] = calls; o["misc"] = {k: float(v).hex() for k, v in misc.items()}
+                step_out[kd] = o
+            if ga is not None:
+                del prob.calls[:]
+                before = _snap(prob)
+                import io, contextlib
+                with contextlib.redirect_stdout(io.StringIO()):
+                    soln = ga.minimize(prob)
+                step_out["ga"] = _solution_out(prob, soln, before, True)
+            outs.append(step_out)
+        return {"steps": outs, "rng_log": [list(t) for t in rng.log], "rng_left": len(rng.q["choice"])}
+    if kind == "op_dom":
+        from pybrops.opt.algo.pymoo_addon import dominates
+        sc = 2.0 ** case["sc"]
+        o1 = numpy.array(case["o1"], dtype=float) * sc; o2 = numpy.array(case["o2"], dtype=float) * sc
+        a1 = o1.copy(); a2 = o2.copy()
+        r = dominates(o1, case["cv1"] * sc, o2, case["cv2"] * sc)
+        return {"dom": bool(r), "type": type(r).__name__, "inputs_unchanged": bool(numpy.array_equal(o1, a1) and numpy.array_equal(o2, a2))}
+    if kind == "op_tiled":
+        from pybrops.opt.algo.pymoo_addon import tiled_choice
+        s = _Script(case["seed"])
+        with _patched_random(s):
+            r = tiled_choice(case["a"], case["size"])
+        r = numpy.asarray(r)
+        return {"out": [int(v) for v in r], "dtype": str(r.dtype), "log": s.log}
+    if kind == "op_hc2":
+        from pybrops.opt.algo import pymoo_addon as PA
+        from pymoo.core.individual import Individual
+        p = case["prob"]
+        prob = _mk_subset_problem(p, case.get("elementwise", True))
+        before = _snap(prob)
+        x = numpy.array(case["x"], dtype=int); x0 = x.copy()
+        setspace = numpy.array(p["cand"], dtype=int)
+        which = case["which"]
+        if which == "StochasticHillClimberMutation": op = PA.StochasticHillClimberMutation(setspace=setspace, phc=1.0, nhcstep=case["nhcstep"])
+        elif which == "MultiObjectiveSteepestDescentHillClimberMutation": op = PA.MultiObjectiveSteepestDescentHillClimberMutation(setspace=setspace, p_hillclimb=1.0)
+        elif which == "MultiObjectiveStochasticDescentHillClimberMutation": op = PA.MultiObjectiveStochasticDescentHillClimberMutation(setspace=setspace, phc=1.0, nhc=case["nhcstep"])
+        else: op = PA.MultiObjectiveStochasticHillClimberMutation(setspace=setspace, p_hillclimb=1.0)
+        numpy.random.seed(case["seed"])
+        if which.startswith("MultiObjectiveS") and which != "MultiObjectiveStochasticHillClimberMutation":
+            ind = Individual(); ind.X = x
+            res = op.hillclimb(prob, ind)
+            rows = numpy.asarray(res.get("X")); F = numpy.asarray(res.get("F"), dtype=float)
+            rows = rows.reshape(len(res), -1) if len(res) else numpy.zeros((0, len(x)), dtype=int)
+            Fh = _hx(F.reshape(len(res), -1)) if len(res) else []
+        else:
+            res = numpy.asarray(op.hillclimb(prob, x))
+            rows = res.reshape(1, -1); Fh = None
+        return {"rows": rows.tolist(), "dtype": str(rows.dtype), "F": Fh, "x_unchanged": bool(numpy.array_equal(x, x0)), "unchanged": _snap(prob) == before,
+                "setspace_unchanged": setspace.tolist() == p["cand"], "shares": bool(numpy.shares_memory(rows, x) or numpy.shares_memory(rows, setspace))}
     if kind == "op_sample":
         from pybrops.opt.algo.pymoo_addon import SubsetRandomSampling
         s = _Script(case["seed"])
@@ -417,7 +672,7 @@ def run_impl(case):
         with _patched_random(g):
             X = op._do(_NVar(case["k"]), case["n"], random_state=s)
         return {"global_draws": len(g.log), "X": numpy.asarray(X).tolist(), "dtype": str(numpy.asarray(X).dtype), "shape": list(numpy.shape(X)), "log": s.log,
-                "setspace_unchanged": setspace.tolist() == case["cand"]}
+                "setspace_unchanged": setspace.tolist() == case["cand"], "shares": bool(numpy.shares_memory(numpy.asarray(X), setspace))}
     if kind == "op_cx":
         from pybrops.opt.algo.pymoo_addon import ReducedExchangeCrossover
         s = _Script(case["seed"])
@@ -428,7 +683,7 @@ def run_impl(case):
         with _patched_random(g):
             Xp = op._do(_NVar(case["k"]), X, random_state=s)
         return {"global_draws": len(g.log), "Xp": numpy.asarray(Xp).tolist(), "dtype": str(Xp.dtype), "log": s.log, "input_unchanged": bool(numpy.array_equal(X, X0)),
-                "n_parents": int(op.n_parents), "n_offsprings": int(op.n_offsprings)}
+                "n_parents": int(op.n_parents), "n_offsprings": int(op.n_offsprings), "shares": bool(numpy.shares_memory(numpy.asarray(Xp), X))}
     if kind == "op_mut":
         from pybrops.opt.algo.pymoo_addon import ReducedExchangeMutation
         s = _Script(case["seed"])
@@ -441,7 +696,8 @@ def run_impl(case):
             Xm = op._do(pr, X, random_state=s)
         pv = op.get_prob_var(pr)
         return {"global_draws": len(g.log), "Xm": numpy.asarray(Xm).tolist(), "dtype": str(Xm.dtype), "log": s.log, "p": float(pv).hex(),
-                "input_unchanged": bool(numpy.array_equal(X, X0)), "setspace_unchanged": setspace.tolist() == case["setspace"]}
+                "input_unchanged": bool(numpy.array_equal(X, X0)), "setspace_unchanged": setspace.tolist() == case["setspace"],
+                "shares": bool(numpy.shares_memory(numpy.asarray(Xm), X) or numpy.shares_memory(numpy.asarray(Xm), setspace))}
     if kind == "op_round":
         from pybrops.opt.algo import pymoo_addon as PA
         from pymoo.operators.crossover.sbx import SimulatedBinaryCrossover
@@ -475,7 +731,8 @@ def run_impl(case):
             res = op.hillclimb(prob, x)
         res = numpy.asarray(res)
         return {"out": res.tolist(), "dtype": str(res.dtype), "log": s.log, "calls": list(prob.calls), "x_unchanged": bool(numpy.array_equal(x, x0)),
-                "unchanged": _snap(prob) == before, "setspace_unchanged": setspace.tolist() == p["cand"]}
+                "unchanged": _snap(prob) == before, "setspace_unchanged": setspace.tolist() == p["cand"],
+                "shares": bool(numpy.shares_memory(res, x) or numpy.shares_memory(res, setspace))}
     if kind == "ga":
         import importlib
         algo_name = case["algo"]
@@ -488,7 +745,8 @@ def run_impl(case):
         ew = case.get("elementwise", True)
         prob = _mk_subset_problem(case["prob"], ew) if subset else _mk_lin_problem(case["lp"], ew)
         before = _snap(prob)
-        kw = {k: case[k] for k in ("phc", "nrefpts") if k in case}
+        kw = {k: case[k] for k in ("phc", "nrefpts", "nhcstep") if k in case}
+        if case.get("rng"): kw["rng"] = numpy.random.default_rng(case["seed"] + 2)     # the optimiser's own generator (default: the global one)
         algo = cls(ngen=case["ngen"], pop_size=case["pop"], **kw)
         # replayability: pybrops' operators draw from the global numpy.random, pymoo from default_rng(None)
         numpy.random.seed(case["seed"])
@@ -533,19 +791,24 @@ def run_impl(case):
 # ------------------------------------------------------------------------------------------------ Coq emission
 def _fh(h): return float.fromhex(h)
 def _isint(h): return float.fromhex(h) == int(float.fromhex(h))
-def _zl_from_hex(hs):
-    for h in hs:
-        if not _isint(h): raise ValueError("non-integer value %r in an integer-valued problem" % h)
-    return E.lst([int(_fh(h)) for h in hs], E.z)
+def _unscale(h, sc=1):
+    """implementation value / scale as an exact integer (the model works in units of the weights' scale)"""
+    v = Fraction(_fh(h)) / sc
+    if v.denominator != 1: raise ValueError("value %r is not an integer multiple of the scale %r" % (h, sc))
+    return int(v)
+
+def _zl_from_hex(hs, sc=1):
+    return E.lst([_unscale(h, sc) for h in hs], E.z)
 
 def _tp(p):
     return ("(mkTP %s %s %s %s %s %s %s %s %s %s)" % (E.lst2(p["W"], E.z), E.lst2(p["P"], E.z), E.lst(p["owt"], E.z), E.lst2(p["C"], E.z),
             E.lst(p["cap"], E.z), E.b(p["clip"]), E.lst(p["iwt"], E.z), E.lst2(p["D"], E.z), E.lst(p["tgt"], E.z), E.lst(p["ewt"], E.z)))
 
-def _evalT(out, i):
-    return "(%s, %s, %s)" % (_zl_from_hex(out["obj"][i]), _zl_from_hex(out["ineq"][i]), _zl_from_hex(out["eq"][i]))
+def _evalT(out, i, p=None):
+    so, scv = (_sc(p, "osc"), _sc(p, "csc")) if p is not None else (1, 1)
+    return "(%s, %s, %s)" % (_zl_from_hex(out["obj"][i], so), _zl_from_hex(out["ineq"][i], scv), _zl_from_hex(out["eq"][i], scv))
 
-def emit_case(case, out):
+def _emit_case(case, out):
     kind = case["kind"]
     if "exc" in out:
         return "false"                                    # no modelled operation / optimiser run is allowed to raise
@@ -556,7 +819,7 @@ def emit_case(case, out):
         if out["nsoln"] != 1 or len(out["decn"]) != 1 or out["dtype"] not in ("int64", "int32"): return "false"
         decn = out["decn"][0]; calls = out["calls"]
         hd = "let ev := tp_eval %s in let cand := %s in let decn := %s in let rep := %s in let calls := %s in " % (
-            _tp(p), zl(cand), zl(decn), _evalT(out, 0), zll(calls))
+            _tp(p), zl(cand), zl(decn), _evalT(out, 0, p), zll(calls))
         parts = ["feasible_b cand %d decn" % k]
         if kind == "sort":
             parts += ["zll_eqb (firstn %d calls) (map (fun e => [e]) cand)" % n,
@@ -583,9 +846,35 @@ def emit_case(case, out):
                       "&& zll_eqb (climb_calls_from ev %d cand start) (skipn %d calls)" % (n, k, k, FUEL, FUEL, n)]
         if "misc" in out and kind != "sort":
             ms = out["misc"]
-            if set(ms) != {"gbest_score", "gbest_cv"} or not all(_isint(v) for v in ms.values()): return "false"
-            parts += ["Z.eqb (score rep) %s" % E.z(int(_fh(ms["gbest_score"]))), "Z.eqb (cv rep) %s" % E.z(int(_fh(ms["gbest_cv"])))]
+            if set(ms) != {"gbest_score", "gbest_cv"}: return "false"
+            parts += ["Z.eqb (score rep) %s" % E.z(_unscale(ms["gbest_score"], _sc(p, "osc"))), "Z.eqb (cv rep) %s" % E.z(_unscale(ms["gbest_cv"], _sc(p, "csc")))]
         return "(" + hd + "\n  " + "\n  && ".join(parts) + ")"
+    if kind == "session":
+        # every call of the session must be what a fresh optimiser computes on the problem as it is at that call
+        want_log = [["choice", len(p["cand"]), p["k"], False] for p in case["steps"]]
+        if out["rng_log"] != want_log or out["rng_left"] != 0: return "false"
+        parts = []
+        for t, (p, so) in enumerate(zip(case["steps"], out["steps"])):
+            for kd in ("sort", "ssd", "sd"):
+                o = dict(so[kd]); o["rng_log"] = [want_log[t]]; o["rng_left"] = 0
+                parts.append(emit_case({"kind": kd, "prob": p, "ix": case["ix"][t]}, o))
+            if "ga" in so:
+                parts.append(emit_case({"kind": "ga", "algo": "SubsetGeneticAlgorithm", "prob": p}, so["ga"]))
+        return "(" + "\n && ".join(parts) + ")"
+    if kind == "op_dom":
+        if out["type"] not in ("bool", "bool_"): return "false"
+        return "Bool.eqb (dominates_m %s %s %s %s) %s" % (zl(case["o1"]), E.z(case["cv1"]), zl(case["o2"]), E.z(case["cv2"]), E.b(out["dom"]))
+    if kind == "op_tiled":
+        a, size = case["a"], case["size"]
+        want = [(a, a)] * (size // a) + [(a, size % a)]
+        got = [(l["n"], l["size"]) for l in out["log"] if l["fn"] == "choice" and l["replace"] is False]
+        if got != want or len(got) != len(out["log"]) or out["dtype"] != "int64": return "false"
+        if sum((l["ix"] for l in out["log"]), []) != out["out"]: return "false"
+        return "tiled_ok %d %d %s" % (a, size, E.lst(out["out"], E.nat))
+    if kind == "op_hc2":
+        p = case["prob"]
+        if out["dtype"] not in ("int64", "int32"): return "false"
+        return "forallb (feasible_b %s %d) %s" % (zl(p["cand"]), p["k"], zll(out["rows"]))
     if kind == "op_sample":
         cand = case["cand"]; k = case["k"]
         log = out["log"]
@@ -671,7 +960,7 @@ def emit_case(case, out):
             p = case["prob"]
             if out["dtype"] not in ("int64", "int32"): return "false"
             parts = ["forallb (feasible_b %s %d) %s" % (zl(p["cand"]), p["k"], zll(out["decn"])), "nondominated_b %s" % F,
-                     "list_eqb evalT_eqb (map (tp_eval %s) %s) %s" % (_tp(p), zll(out["decn"]), E.lst(range(len(out["decn"])), lambda i: _evalT(out, i)))]
+                     "list_eqb evalT_eqb (map (tp_eval %s) %s) %s" % (_tp(p), zll(out["decn"]), E.lst(range(len(out["decn"])), lambda i: _evalT(out, i, p)))]
             return "(" + "\n  && ".join(parts) + ")"
         lp = case["lp"]
         qz = lambda xs: E.lst([Fraction(x) for x in xs], E.q)
@@ -688,6 +977,13 @@ def emit_case(case, out):
                 E.lst(range(len(out["decn"])), lambda i: _evalT(out, i))))
         return "(" + "\n  && ".join(parts) + ")"
     return "false"
+
+def emit_case(case, out):
+    """an output the model's number types cannot hold (NaN, infinity, a non-integer where the problem is integer valued) is a disagreement"""
+    try:
+        return _emit_case(case, out)
+    except (ValueError, OverflowError, KeyError, IndexError, TypeError):
+        return "false"
 
 # ------------------------------------------------------------------------------------------------ independent predicate
 def _lex(cvs):  # (cv, score)
@@ -746,9 +1042,10 @@ def _monitor(case, out, bad):
         if fr[1] != out["ineq"][i]: bad.append("soln_ineqcv[%d] differs from a fresh evalfn" % i)
         if fr[2] != out["eq"][i]: bad.append("soln_eqcv[%d] differs from a fresh evalfn" % i)
         if want is not None:
-            if [Fraction(v) for v in F[i]] != [Fraction(v) for v in want[0]]: bad.append("soln_obj[%d] != objective of the decision (independent evaluation)" % i)
-            if [Fraction(v) for v in G[i]] != [Fraction(v) for v in want[1]]: bad.append("soln_ineqcv[%d] != constraint values of the decision" % i)
-            if [Fraction(v) for v in H[i]] != [Fraction(v) for v in want[2]]: bad.append("soln_eqcv[%d] != constraint values of the decision" % i)
+            fr = lambda vs: [Fraction(v) if v == v and abs(v) != float("inf") else repr(v) for v in vs]      # non-finite values never equal a Fraction
+            if fr(F[i]) != [Fraction(v) for v in want[0]]: bad.append("soln_obj[%d] != objective of the decision (independent evaluation)" % i)
+            if fr(G[i]) != [Fraction(v) for v in want[1]]: bad.append("soln_ineqcv[%d] != constraint values of the decision" % i)
+            if fr(H[i]) != [Fraction(v) for v in want[2]]: bad.append("soln_eqcv[%d] != constraint values of the decision" % i)
     # mutual non-domination (constraint violation first, as pymoo_addon.dominates)
     cvs = [sum(max(0.0, v) for v in g) + sum(abs(v) for v in h) for g, h in zip(G, H)]
     for i in range(len(F)):
@@ -760,15 +1057,53 @@ def _monitor(case, out, bad):
                 dom = cvs[i] < cvs[j]
             if dom: bad.append("solution %d is dominated by solution %d" % (j, i)); break
 
-def pred(case, out):
+def _pred(case, out):
     kind = case["kind"]
     if "exc" in out:
         return ["implementation raised %s: %s" % (out["exc"], out["msg"])]
     bad = []
+    if out.get("shares") and kind in ("op_sample", "op_cx", "op_mut", "op_hcAB"):
+        bad.append("the operator's result shares memory with its input / the set space (a later in-place write would corrupt the other)")
     if out.get("global_draws"):
         bad.append("operator handed its own generator (random_state) still drew %d time(s) from the global numpy stream" % out["global_draws"])
+    if kind == "session":
+        want_log = [["choice", len(p["cand"]), p["k"], False] for p in case["steps"]]
+        if out["rng_log"] != want_log: bad.append("session: the generator was asked %r, expected one draw without replacement per call %r" % (out["rng_log"], want_log))
+        for t, (p, so) in enumerate(zip(case["steps"], out["steps"])):
+            for kd in ("sort", "ssd", "sd"):
+                o = dict(so[kd]); o["rng_log"] = [want_log[t]]
+                bad += ["call %d of the session (%s, same optimiser and problem objects): %s" % (t, kd, b) for b in pred({"kind": kd, "prob": p, "ix": case["ix"][t]}, o)]
+            if "ga" in so:
+                g = []; _monitor({"kind": "ga", "prob": p}, so["ga"], g)
+                bad += ["call %d of the session (SubsetGeneticAlgorithm): %s" % (t, b) for b in g]
+    if kind == "op_dom":
+        f1 = (case["cv1"] <= 0 and case["cv2"] <= 0)
+        want = (all(a <= b for a, b in zip(case["o1"], case["o2"])) and any(a < b for a, b in zip(case["o1"], case["o2"]))) if f1 else case["cv1"] < case["cv2"]
+        if out["dom"] != want: bad.append("dominates(%r, %r, %r, %r) scaled by 2^%d = %r, expected %r" % (case["o1"], case["cv1"], case["o2"], case["cv2"], case["sc"], out["dom"], want))
+        if not out["inputs_unchanged"]: bad.append("dominates modified its arguments")
+    if kind == "op_tiled":
+        a, size = case["a"], case["size"]; r = out["out"]
+        if len(r) != size or any(not (0 <= v < a) for v in r): bad.append("tiled_choice(%d, %d) = %r: wrong length or value out of range" % (a, size, r))
+        for t in range(0, size, a):
+            if len(set(r[t:t + a])) != len(r[t:t + a]): bad.append("tiled_choice(%d, %d) = %r repeats a value inside the tile starting at %d" % (a, size, r, t)); break
+    if kind == "op_hc2":
+        cand = case["prob"]["cand"]; k = case["prob"]["k"]
+        if not out["x_unchanged"]: bad.append("hillclimb modified its input chromosome")
+        if not out["unchanged"] or not out["setspace_unchanged"]: bad.append("hillclimb modified the problem / set space")
+        # (no memory-sharing clause here: StochasticHillClimberMutation.hillclimb falls back to reduced_exchange, which returns its argument;
+        #  _do hands it a row of its private copy.  The input must be unchanged, which is checked above.)
+        used = case["which"] in HC2[:2]      # the other two classes are used by no optimiser: only feasibility is demanded of them (see COVERED)
+        if used and not out["rows"] and k < len(cand): bad.append("hillclimb returned an empty population although unused candidates exist")
+        for y in out["rows"]:
+            if len(y) != k or any(e not in cand for e in y) or len(set(y)) != len(y):
+                bad.append("%s.hillclimb returned %r, not a %d-subset of the candidates" % (case["which"], y, k)); break
+        if out["F"] is not None and used:
+            for y, f in zip(out["rows"], out["F"]):
+                if all(e in cand for e in y) and [Fraction(_fh(h)) for h in f] != [Fraction(v) for v in _tab_eval(case["prob"], y)[0]]:
+                    bad.append("%s.hillclimb: objective values stored with %r are not its evaluation" % (case["which"], y)); break
     if kind in ("sort", "sd", "ssd", "ga"):
         _monitor(case, out, bad)
+        if out.get("alias_free") is not True: bad.append("overwriting the returned solution arrays in place changed the problem object (%r)" % (out.get("alias_free"),))
     if kind == "ga" and "prob" in case:
         # the operator theorems apply to the run only if the optimiser is configured with the verified operators
         ops = out.get("ops") or {}
@@ -850,6 +1185,12 @@ def pred(case, out):
         if b not in seen: seen.append(b)
     return seen[:8]
 
+def pred(case, out):
+    try:
+        return _pred(case, out)
+    except (ValueError, OverflowError, KeyError, IndexError, TypeError) as e:
+        return ["the output cannot be interpreted by the predicate (%s: %s)" % (type(e).__name__, str(e)[:120])]
+
 def classify(case, out, clauses):
     # every finding of this property has been repaired in the library (known_findings.d/C06.json: all "fixed"):
     # no failure pattern is excused
@@ -858,6 +1199,10 @@ def classify(case, out, clauses):
 def nontrivial(case, out):
     kind = case["kind"]
     if "exc" in out: return False
+    if kind == "session": return len(case["steps"]) >= 2
+    if kind == "op_dom": return case["o1"] != case["o2"] or case["cv1"] != case["cv2"]
+    if kind == "op_tiled": return case["size"] > 0
+    if kind == "op_hc2": return any(r != case["x"] for r in out["rows"])
     if kind == "sort": return case["prob"]["k"] < len(case["prob"]["cand"])
     if kind in ("sd", "ssd"):
         start = out["calls"][0 if kind == "sd" else len(case["prob"]["cand"])]
@@ -875,8 +1220,12 @@ def nontrivial(case, out):
 def describe(case, out):
     kind = case["kind"]
     d = {"kind": kind, "raised": "exc" in out}
+    if kind == "session": d["calls"] = 3 * len(case["steps"]); d["ga"] = bool(case.get("ga"))
+    if kind == "op_hc2": d["which"] = case["which"]
+    if kind == "op_dom": d["both_feasible"] = case["cv1"] <= 0 and case["cv2"] <= 0
     if kind in ("sort", "sd", "ssd"):
         p = case["prob"]; n = len(p["cand"]); k = p["k"]
+        d["scale"] = "2^%d/2^%d" % (p.get("osc", 0), p.get("csc", 0)); d["n>127"] = n > 127
         d["size"] = "k=n" if k == n else ("k=1" if k == 1 else "1<k<n")
         d["constraints"] = "none" if not p["C"] and not p["D"] else ("ineq+eq" if p["C"] and p["D"] else ("ineq" if p["C"] else "eq"))
         d["objective"] = "pair-interaction" if p["P"] else "separable"
@@ -908,3 +1257,11 @@ def shrink(case, fails):
                     t = copy.deepcopy(cur); t[key] = v
                     if fails(t): cur = t; break
     return cur
+
+
+def translate(repo, gen_dir):
+    """regenerate Gen/C06_Kernel.v (kernel expressions and statement groups of the climbers, the sorting optimiser, dominates,
+    tiled_choice, the variation operators, the memetic hill-climb steps, and the Solution-construction table of all sixteen
+    optimiser classes) from the current source; fail closed"""
+    from translate import c06_kernel
+    return [c06_kernel.translate(repo, gen_dir)]
